@@ -51,6 +51,10 @@ func runHistory(c HCase) *ev.Failure {
 			r := *op.Reg
 			h := &recHandler{id: i, calls: &calls}
 			switch {
+			case r.Idx != nil && r.Name == "ALL":
+				// the catch-all through the index entry point: the same key as Handle("ALL")
+				mux.HandleIdx(diam.ALL_CMD_INDEX, h)
+				model.all = i
 			case r.Idx != nil:
 				mux.HandleIdx(diam.CommandIndex{AppID: r.Idx.App, Code: r.Idx.Code, Request: r.Idx.Req}, h)
 				model.idx[*r.Idx] = i
@@ -234,7 +238,12 @@ func genHistory(t *rapid.T) HCase {
 			r.Func = rapid.Bool().Draw(t, "func")
 		default:
 			r.Name = "ALL"
-			r.Func = rapid.Bool().Draw(t, "func")
+			switch rapid.IntRange(0, 2).Draw(t, "all-entry-point") {
+			case 0:
+				r.Func = true
+			case 1:
+				r.Idx = &Idx{App: 0xffffffff, Code: 0xffffffff} // marker: HandleIdx(diam.ALL_CMD_INDEX)
+			}
 		}
 		c.Ops = append(c.Ops, HOp{Reg: &r})
 	}
